@@ -154,7 +154,7 @@ BASE_REGISTRY = {
     ('Cache', 'add'): opaque(Oid, 'oid'),
 }
 
-GLOBALS = {'Seen': FLAG_SEEN}
+GLOBALS = {'Seen': FLAG_SEEN, 'Recent': FLAG_RECENT}
 
 
 def flags_requires():
